@@ -32,6 +32,45 @@ class Ex:
         self.src = src
         self.scatter = []     # (target, mask prop, expr)
         self.ctx_saved = {}
+        # aliasing of in-place operations: every tensor-valued name / ctx attribute / saved tensor has a storage id;
+        # `x.op_()` writes the storage, i.e. rebinds EVERY name (and ctx attribute) that shares it.  `store` holds the
+        # current value of the storages somebody else can see after the call (inputs, ctx attributes, saved tensors).
+        self.sid = {}         # name -> storage id
+        self.store = {}       # storage id -> IR (only for the externally visible storages)
+        self._fresh = 0
+
+    VIEW_METHODS = ("expand_as", "view", "view_as", "t", "detach", "reshape", "squeeze", "unsqueeze", "contiguous")
+
+    def fresh_sid(self):
+        self._fresh += 1
+        return f"loc:{self._fresh}"
+
+    def bind_input(self, env, name, sid, value):
+        env[name] = value
+        self.sid[name] = sid
+        self.store[sid] = value
+
+    def storage_of(self, node):
+        """storage id of the tensor a (sub)expression denotes, or None for a freshly allocated result."""
+        if isinstance(node, ast.Name):
+            return self.sid.get(node.id)
+        if isinstance(node, ast.Attribute) and isinstance(node.value, ast.Name) and node.value.id == "ctx":
+            return "ctx." + node.attr
+        if isinstance(node, ast.Call) and isinstance(node.func, ast.Attribute):
+            m = node.func.attr
+            if (m.endswith("_") and not m.endswith("__")) or m in self.VIEW_METHODS:
+                return self.storage_of(node.func.value)
+        return None
+
+    def write(self, sid, value, env):
+        """an in-place operation stored `value` into storage `sid`."""
+        for nm, s_ in self.sid.items():
+            if s_ == sid:
+                env[nm] = value
+        if sid.startswith("ctx."):
+            self.ctx_saved[sid[4:]] = value
+        if sid in self.store or sid.startswith("ctx."):
+            self.store[sid] = value
 
     def const(self, node):
         v = node.value
@@ -119,8 +158,10 @@ class Ex:
                 res = ("bin", "*", recv, recv)
             elif base in ("div", "mul", "sub", "add") and len(a) == 1:
                 res = ("bin", {"div": "/", "mul": "*", "sub": "-", "add": "+"}[base], recv, a[0])
-            elif base == "sqrt" and not a:
-                res = ("app", "TransFn.sqrt", recv)
+            elif base in ("sqrt", "abs", "exp", "log") and not a:
+                res = ("app", "TransFn." + base, recv)
+            elif base == "neg" and not a:
+                res = ("neg", recv)
             elif base == "lt" and len(a) == 1:
                 return ("lt", recv, a[0])
             elif base == "eq" and len(a) == 1:
@@ -135,8 +176,12 @@ class Ex:
                 return ("app", "transpose", recv)
             if res is None:
                 _bad(node, "method outside vocabulary")
-            if inplace and isinstance(node.func.value, ast.Name):
-                env[node.func.value.id] = res     # the receiver variable is mutated
+            if inplace:
+                sid = self.storage_of(node.func.value)
+                if sid is not None:
+                    self.write(sid, res, env)     # every alias of the receiver's storage sees the new value
+                elif isinstance(node.func.value, ast.Name):
+                    env[node.func.value.id] = res
             return res
         _bad(node, "call outside vocabulary")
 
@@ -148,16 +193,19 @@ class Ex:
                 tgt = st.targets[0]
                 if isinstance(tgt, ast.Name):
                     env[tgt.id] = self.expr(st.value, env)
+                    self.sid[tgt.id] = self.storage_of(st.value) or self.fresh_sid()
                     continue
                 if isinstance(tgt, ast.Attribute) and _src(tgt).startswith("ctx."):
                     self.ctx_saved[tgt.attr] = self.expr(st.value, env)
                     continue
                 if isinstance(tgt, ast.Tuple) and _src(st.value) == "ctx.saved_tensors":
-                    for t_, nm in zip(tgt.elts, self.ctx_saved.get("__saved__", [])):
-                        env[t_.id] = nm
+                    for i_, (t_, nm) in enumerate(zip(tgt.elts, self.ctx_saved.get("__saved__", []))):
+                        self.bind_input(env, t_.id, f"saved:{i_}", nm)
                     continue
                 if isinstance(tgt, ast.Subscript) and isinstance(tgt.value, ast.Name):
                     # grad[mask] = expr
+                    if self.sid.get(tgt.value.id) in self.store:
+                        _bad(st, "masked write into an input / saved tensor")
                     mask = self.expr(tgt.slice, env)
                     self.scatter.append((tgt.value.id, mask, self.sub_masked(st.value, env)))
                     continue
@@ -174,12 +222,15 @@ class Ex:
                     _bad(st, "for-loop over something that is not a constant table")
                 for item in table:
                     env[st.target.id] = item
+                    self.sid[st.target.id] = self.fresh_sid()
                     self.block(st.body, env)
                 continue
             if isinstance(st, ast.Expr) and isinstance(st.value, ast.Call):
                 f = _src(st.value.func)
                 if f.endswith(".masked_scatter_") and len(st.value.args) == 2:
                     tgt = _src(st.value.func.value)
+                    if self.storage_of(st.value.func.value) in self.store:
+                        _bad(st, "masked_scatter_ into an input / saved tensor")
                     self.scatter.append((tgt, self.expr(st.value.args[0], env), self.expr(st.value.args[1], env)))
                     continue
                 if f == "ctx.save_for_backward":
@@ -200,6 +251,100 @@ class Ex:
             def visit_Subscript(s, n):
                 return n.value if isinstance(n.value, ast.Name) else n
         return self.expr(T().visit(ast.parse(_src(node), mode="eval").body), env)
+
+
+
+# ------------------------------------------------------------------ instance state written by a method
+
+STATE_CALLS = ("setattr", "object.__setattr__", "delattr", "self.register_buffer", "self.register_parameter",
+               "self.add_module", "self.register_module", "self.__setattr__", "self.__dict__.update",
+               "self.__dict__.__setitem__", "self.__dict__.setdefault", "self.__dict__.pop", "vars(self).update")
+MEMO_DECORATORS = ("cache", "lru_cache", "cached", "cached_property", "memoize", "functools.cache", "functools.lru_cache")
+CAST_METHODS = ("to", "type_as", "double", "float", "half", "bfloat16", "cpu", "cuda", "type", "clone", "detach", "contiguous")
+
+
+def _root(node):
+    """root expression of an attribute / subscript / call-receiver chain"""
+    while True:
+        if isinstance(node, (ast.Attribute, ast.Subscript, ast.Starred)):
+            node = node.value
+        elif isinstance(node, ast.Call) and isinstance(node.func, ast.Attribute):
+            node = node.func.value
+        else:
+            return node
+
+
+def state_writes(fn, cls_name):
+    """Every construct of the method `fn` that writes state which outlives the call: assignments / deletions / augmented
+    assignments whose target is rooted at `self` (or at a local alias of a `self` attribute, at `type(self)`,
+    `self.__class__`, the class name), in-place tensor methods (`x.op_()`) and container mutators on such receivers,
+    `setattr`/`register_buffer`-style calls, `global`/`nonlocal`, and memoising decorators.  Pure AST walk (no vocabulary):
+    an unknown construct can only add to the list.  Returns source snippets."""
+    found = []
+    alias = {"self"}
+    klass = {cls_name}
+
+    def rooted(node):
+        r = _root(node)
+        if isinstance(r, ast.Name) and (r.id in alias or r.id in klass):
+            return not (isinstance(node, ast.Name))        # rebinding the local name itself writes nothing
+        if isinstance(r, ast.Call) and _src(r) in ("type(self)", "vars(self)"):
+            return True
+        return False
+
+    for d in fn.decorator_list:
+        nm = _src(d.func if isinstance(d, ast.Call) else d)
+        if nm.split(".")[-1] in MEMO_DECORATORS or nm in MEMO_DECORATORS:
+            found.append("@" + _src(d))
+    for n in ast.walk(fn):
+        if isinstance(n, ast.Assign) and len(n.targets) == 1 and isinstance(n.targets[0], ast.Name):
+            # alias of a self attribute (pure attribute chain, no call): writes through it are writes to the object
+            v = n.value
+            if isinstance(v, ast.Attribute) and isinstance(_root(v), ast.Name) and _root(v).id in alias and \
+                    not any(isinstance(x, ast.Call) for x in ast.walk(v)):
+                alias.add(n.targets[0].id)
+            if _src(v) in ("type(self)", "self.__class__"):
+                klass.add(n.targets[0].id)
+    for n in ast.walk(fn):
+        tgts = []
+        if isinstance(n, ast.Assign):
+            for t in n.targets:
+                tgts += list(t.elts) if isinstance(t, (ast.Tuple, ast.List)) else [t]
+        elif isinstance(n, (ast.AugAssign, ast.AnnAssign)):
+            tgts = [n.target]
+        elif isinstance(n, ast.Delete):
+            tgts = list(n.targets)
+        elif isinstance(n, (ast.Global, ast.Nonlocal)):
+            found.append(_src(n))
+        elif isinstance(n, ast.Call):
+            f = _src(n.func)
+            if f in STATE_CALLS and (not f.startswith(("setattr", "object.", "delattr")) or
+                                     (n.args and rooted(ast.Attribute(value=n.args[0], attr="_", ctx=ast.Load())))):
+                found.append(_src(n))
+            elif isinstance(n.func, ast.Attribute):
+                m = n.func.attr
+                mut = (m.endswith("_") and not m.endswith("__")) or m in ("append", "extend", "update", "setdefault", "pop",
+                                                                           "clear", "insert", "remove", "popitem", "add")
+                if mut and rooted(n.func):
+                    found.append(_src(n))
+        for t in tgts:
+            if not isinstance(t, ast.Name) and rooted(t):
+                found.append(_src(n).split("\n")[0])
+    return found
+
+
+def _is_state_write_only(st):
+    """a statement whose only effect is to write `self` state with values that are dtype / device casts of that state
+    (identity in the exact, real-number meaning of the translated expressions)"""
+    if isinstance(st, ast.If) :
+        return all(_is_state_write_only(x) for x in st.body + st.orelse) and bool(st.body)
+    if isinstance(st, ast.Assign) and len(st.targets) == 1 and isinstance(st.targets[0], ast.Attribute) and \
+            isinstance(st.targets[0].value, ast.Name) and st.targets[0].value.id == "self":
+        v = st.value
+        while isinstance(v, ast.Call) and isinstance(v.func, ast.Attribute) and v.func.attr in CAST_METHODS:
+            v = v.func.value
+        return _src(v) == _src(st.targets[0])
+    return False
 
 
 def emit_x(e):
@@ -277,9 +422,12 @@ def generate(repo, out_path):
            "self.weights": ("var", "w")}
     shifted = term = None
     summed = False
+    ghq_writes = state_writes(fwd, "GaussHermiteQuadrature1D")
     for st in fwd.body:
         if isinstance(st, ast.Expr) and isinstance(st.value, ast.Constant):
             continue
+        if _is_state_write_only(st):
+            continue        # counted in `ghqForwardStateWrites`; a cast of the stored table is the identity on its exact values
         if isinstance(st, ast.Assign) and isinstance(st.targets[0], ast.Name):
             nm = st.targets[0].id
             if nm == "log_probs":
@@ -310,6 +458,12 @@ def generate(repo, out_path):
     A("the result of `forward` is the sum of these over the nodes -/")
     A(f"def ghTerm (fx w : α) : α := {emit_x(term)}")
     A("")
+    A("/-- `GaussHermiteQuadrature1D.forward`: number of constructs that write the rule object's state (assignment to /")
+    A("in-place operation on / registration of an attribute of `self`, memoising decorator)" +
+      (": " + " ; ".join("`" + w.replace("-/", "- /") + "`" for w in ghq_writes) if ghq_writes else "") + " -/")
+    A(f"def ghqForwardStateWrites : Nat := {len(ghq_writes)}")
+    A("")
+    info["ghq_forward_state_writes"] = ghq_writes
     lw = _fn(q, "_locs_and_weights")
     body = "\n".join(_src(s) for s in lw.body if not (isinstance(s, ast.Expr) and isinstance(s.value, ast.Constant)))
     if "np.polynomial.hermite.hermgauss(num_locs)" not in body:
@@ -323,8 +477,10 @@ def generate(repo, out_path):
     src, tree = _read(repo, "gpytorch/functions/_log_normal_cdf.py")
     c = _cls(tree, "LogNormalCDF")
     ex = Ex(src)
-    env = {"z": ("var", "z")}
+    env = {}
+    ex.bind_input(env, "z", "in:z", ("var", "z"))
     ex.block(_fn(c, "forward").body, env)
+    fwd_input_after = ex.store["in:z"]
     masks = {k: env.get(k) for k in ("z_near_zero", "z_is_small", "z_is_ordinary")}
     if any(v is None for v in masks.values()):
         raise TranslateError("LogNormalCDF.forward: masks z_near_zero / z_is_small / z_is_ordinary not found")
@@ -358,8 +514,12 @@ def generate(repo, out_path):
     exb = Ex(src)
     exb.ctx_saved = {"numerator": ("var", "num"), "denominator": ("var", "den"),
                      "__saved__": [("var", "z"), ("var", "logPhi")]}
-    envb = {"grad_output": ("var", "g")}
+    envb = {}
+    exb.bind_input(envb, "grad_output", "in:g", ("var", "g"))
+    exb.store["ctx.numerator"], exb.store["ctx.denominator"] = ("var", "num"), ("var", "den")
+    exb.store["saved:0"], exb.store["saved:1"] = ("var", "z"), ("var", "logPhi")
     ret = exb.block(_fn(c, "backward").body, envb)
+    bwd_state_after = [exb.store[k_] for k_ in ("saved:0", "saved:1", "ctx.numerator", "ctx.denominator", "in:g")]
     bw = [(m, e) for (t, m, e) in exb.scatter if t == "log_phi_z_grad"]
     if len(bw) != 2:
         raise TranslateError("LogNormalCDF.backward: expected two masked assignments")
@@ -374,6 +534,14 @@ def generate(repo, out_path):
     A(f"def lncdfBackwardSmallMask [LT α] (z : α) : Prop := {emit_mask(envb['z_is_small'])}")
     A(f"def lncdfBackwardSmall (num den : α) : α := {emit_x(bw[0][1])}")
     A(f"def lncdfBackwardNotSmall (z logPhi : α) : α := {emit_x(bw[1][1])}")
+    A("/-! ### what the calls leave behind (in-place operations followed through every alias) -/")
+    A("/-- `LogNormalCDF.forward`: the value of the INPUT tensor `z` after the call -/")
+    A(f"def lncdfForwardInputAfter (z : α) : α := {emit_x(fwd_input_after)}")
+    A("/-- `LogNormalCDF.backward`: the values of the saved tensors `z`, `log_phi_z`, of `ctx.numerator`, `ctx.denominator`")
+    A("and of `grad_output` AFTER one backward pass, as functions of their values before it (a second pass through the")
+    A("same graph reads these) -/")
+    A("def lncdfBackwardStateAfter (z logPhi num den g : α) : α × α × α × α × α :=")
+    A("  (" + ", ".join(emit_x(e_) for e_ in bwd_state_after) + ")")
     A("")
 
     # ---------------- bernoulli
@@ -404,12 +572,32 @@ def generate(repo, out_path):
             integrand = Ex(src).expr(n.body, {"function_samples": ("var", "f"), "observations": ("var", "s")})
     if lab is None or integrand is None:
         raise TranslateError("BernoulliLikelihood.expected_log_prob: label map / integrand not found")
+    # path condition of the label-map statement: the list of (test, polarity) of the enclosing `if`s
+    def _guard(stmts, path):
+        for st_ in stmts:
+            if isinstance(st_, ast.Assign) and _src(st_.targets[0]) == "observations":
+                return path
+            if isinstance(st_, ast.If):
+                r_ = _guard(st_.body, path + [(_src(st_.test), True)])
+                if r_ is None:
+                    r_ = _guard(st_.orelse, path + [(_src(st_.test), False)])
+                if r_ is not None:
+                    return r_
+        return None
+    guard = _guard(elp.body, [])
+    n_label_assigns = sum(1 for n in ast.walk(elp) if isinstance(n, ast.Assign) and _src(n.targets[0]) == "observations")
+    guard_ok = guard == [("torch.any(observations.eq(-1))", False)] and n_label_assigns == 1
+    info["bernoulli_label_guard"] = guard
     A("/-- `expected_log_prob`: labels {0,1} -> signs {−1,+1} -/")
     A(f"def bernoulliSign (y : α) : α := {emit_x(lab)}")
     A("/-- `expected_log_prob`: integrand (argument handed to `log_normal_cdf`), `s` = sign -/")
     if integrand[0] != "lncdf":
         raise TranslateError("expected_log_prob integrand is not log_normal_cdf(...)")
     A(f"def bernoulliElpArg (f s : α) : α := {emit_x(integrand[1])}")
+    A("/-- `expected_log_prob`: the label map is applied exactly on the path `not torch.any(observations.eq(-1))` — a test")
+    A("of the observations of THIS call and of nothing else (path found: " +
+      " ∧ ".join(("" if pol else "¬ ") + "`" + t.replace("-/", "- /") + "`" for t, pol in (guard or [])) + ") -/")
+    A(f"def bernoulliLabelGuardIsCurrentInput : Bool := {'true' if guard_ok else 'false'}")
     A("")
 
     # ---------------- beta
@@ -552,6 +740,13 @@ def generate(repo, out_path):
                 env[st.targets[0].id] = od_expr(st.value, env)
             elif isinstance(st, ast.Return):
                 return od_expr(st.value, env)
+            elif isinstance(st, ast.Expr) and isinstance(st.value, ast.Constant) and isinstance(st.value.value, str):
+                continue
+            elif isinstance(st, (ast.Assign, ast.AugAssign)) and \
+                    all(isinstance(_root(t_), ast.Name) and _root(t_).id == "self" and not isinstance(t_, ast.Name)
+                        for t_ in (st.targets if isinstance(st, ast.Assign) else [st.target])) and \
+                    not any(isinstance(x_, ast.Call) and "quadrature" in _src(x_) for x_ in ast.walk(st)):
+                continue        # a write to instance state: counted in `likelihoodCallStateWrites`, no value
             else:
                 _bad(st, "statement outside vocabulary")
         raise TranslateError(f"{name}: no return")
@@ -559,6 +754,34 @@ def generate(repo, out_path):
     A("`logp f` = `self.forward(f).log_prob(observations)`) -/")
     A(f"def oneDimExpectedLogProb (quad : (α → α) → α) (logp : α → α) : α := {od_emit(od_method('expected_log_prob'))}")
     A(f"def oneDimLogMarginal (quad : (α → α) → α) (logp : α → α) : α := {od_emit(od_method('log_marginal'))}")
+    A("")
+
+    # ---------------- instance state written by the call methods of the one-dimensional likelihoods
+    CALLS = ("__call__", "forward", "marginal", "log_marginal", "expected_log_prob")
+    rows = []
+    for rel, cname in (("gpytorch/likelihoods/likelihood.py", "_OneDimensionalLikelihood"),
+                       ("gpytorch/likelihoods/bernoulli_likelihood.py", "BernoulliLikelihood"),
+                       ("gpytorch/likelihoods/laplace_likelihood.py", "LaplaceLikelihood"),
+                       ("gpytorch/likelihoods/student_t_likelihood.py", "StudentTLikelihood"),
+                       ("gpytorch/likelihoods/beta_likelihood.py", "BetaLikelihood")):
+        _s, _t = _read(repo, rel)
+        for n in _cls(_t, cname).body:
+            if isinstance(n, ast.FunctionDef) and n.name in CALLS:
+                rows.append((f"{cname}.{n.name}", state_writes(n, cname)))
+    need = {"_OneDimensionalLikelihood.expected_log_prob", "_OneDimensionalLikelihood.log_marginal",
+            "BernoulliLikelihood.expected_log_prob", "BernoulliLikelihood.log_marginal", "BernoulliLikelihood.marginal",
+            "BernoulliLikelihood.forward", "LaplaceLikelihood.forward", "StudentTLikelihood.forward", "BetaLikelihood.forward"}
+    if not need <= {r[0] for r in rows}:
+        raise TranslateError("call methods not found: " + ", ".join(sorted(need - {r[0] for r in rows})))
+    info["likelihood_state_writes"] = {k: v for k, v in rows if v}
+    A("/-! ### instance state written by the call methods of the one-dimensional likelihoods -/")
+    A("/-- number of constructs that write state of `self` (see `ghqForwardStateWrites`), per method, in the order")
+    A(", ".join(f"`{k}`" for k, _ in rows))
+    for k, v in rows:
+        if v:
+            A(f"  {k}: " + " ; ".join("`" + w.replace("-/", "- /") + "`" for w in v))
+    A("-/")
+    A("def likelihoodCallStateWrites : List Nat := [" + ", ".join(str(len(v)) for _, v in rows) + "]")
     A("")
 
     # ---------------- softmax
